@@ -201,6 +201,20 @@ def main():
                                              marker, "first" if first == "faulty" else "last"), "groups": got, "rc": rc})
                 finally:
                     shutil.rmtree(hl, ignore_errors=True)
+    # --one-fs asks for the device of every directory: when that query fails the directory is skipped (with a warning), it is not
+    # entered "just in case" - it may be a mount point
+    of = os.path.join(d, "onefs")
+    os.makedirs(os.path.join(of, "m_SELFSTAT"))
+    os.makedirs(os.path.join(of, "ok"))
+    for rel in ("m_SELFSTAT/i1", "m_SELFSTAT/i2", "ok/o1", "ok/o2"):
+        open(os.path.join(of, rel), "wb").write(b"one-fs scenario content\n")
+    rc, got, err = groups(binary, [of], of, ["--one-fs"], dict(base_env, LD_PRELOAD=shim))
+    runs += 1
+    inside = sorted(x for g in (got or []) for x in g if "SELFSTAT" in x)
+    if rc != 0 or not any("ok/o1" in g and "ok/o2" in g for g in (got or [])):
+        devs.append({"options": ["--one-fs"], "what": "a directory whose device cannot be determined changed how the other files are grouped", "groups": got, "rc": rc})
+    elif inside:
+        devs.append({"options": ["--one-fs"], "what": "--one-fs: a directory whose device could not be determined (stat fails with EIO) was entered anyway", "listed": inside})
     # the n-th read of a directory fails (EIO after a few entries): the entries that could not be read are left out - with a warning
     # naming the directory - and the rest of the tree is grouped as usual
     nd = os.path.join(d, "nthdir")
